@@ -55,8 +55,8 @@ PLAN = {
             'thorough': [('capacity', None), ('retry_dispatch', None), ('hist', None), ('hist_rand', 4000), ('life', None), ('life_rand', 3000), ('capacity_fwd', None)]},
     'C15': {'quick': [('life', None), ('idle_par', None), ('life_rand', 400), ('fwd', 200), ('timeout', 100), ('par_timeout', 72), ('idle_evict', None), ('fwd_idle', 300), ('idle_forward_lock', None)],
             'thorough': [('life', None), ('idle_par', None), ('life_rand', 10000), ('fwd', 3000), ('timeout', None), ('nest', 4000), ('hist_rand', 2000), ('par_timeout', None), ('timeout_par_rand', 2000), ('idle_evict', None), ('fwd_idle', 4000), ('idle_forward_lock', None)]},
-    'C16': {'quick': [('life', None), ('life_rand', 400), ('stop_in_handler', None), ('stop_clear', None)],
-            'thorough': [('life', None), ('life_rand', 15000), ('stop_in_handler', None), ('stop_clear', None)]},
+    'C16': {'quick': [('life', None), ('life_rand', 400), ('stop_in_handler', None), ('stop_clear', None), ('cancel_cleanup', None)],
+            'thorough': [('life', None), ('life_rand', 15000), ('stop_in_handler', None), ('stop_clear', None), ('cancel_cleanup', None)]},
     'C17': {'quick': [('wal', 1200)],
             'thorough': [('wal', 20000)]},
     'C18': {'quick': [('expect', 800)],
